@@ -51,6 +51,31 @@ impl FormalArgs {
     ///
     /// Returns a Scope that is a sub-scope to the given `scope`.
     pub fn eval(&self, scope: ScopeRef, args: CallArgs) -> Result<ScopeRef> {
+        self.do_eval(scope, args, false)
+    }
+
+    /// Evaluate a set of call arguments for the formal arguments of a
+    /// user-defined function, mixin or content block.
+    ///
+    /// Like [`Self::eval`], but an argument passed both by position
+    /// and by name is an error even if there is a rest parameter, and
+    /// the rest parameter is always an argument list (a named argument
+    /// that happens to have the name of the rest parameter is one of
+    /// its keywords).
+    pub(crate) fn eval_user(
+        &self,
+        scope: ScopeRef,
+        args: CallArgs,
+    ) -> Result<ScopeRef> {
+        self.do_eval(scope, args, true)
+    }
+
+    fn do_eval(
+        &self,
+        scope: ScopeRef,
+        args: CallArgs,
+        user: bool,
+    ) -> Result<ScopeRef> {
         let mut args = args;
         let argscope = ScopeRef::sub(scope);
         if !self.is_varargs() {
@@ -67,6 +92,9 @@ impl FormalArgs {
         }
         let positional = args.take_positional(self.0.len());
         for ((name, _default), value) in self.0.iter().zip(&positional) {
+            if user && args.named.contains_key(name) {
+                return Err(ArgsError::Duplicate(name.clone()));
+            }
             argscope.define(name.clone(), value.clone())?;
         }
         if self.0.len() > positional.len() {
@@ -84,10 +112,9 @@ impl FormalArgs {
             }
         }
         if let Some(va_name) = &self.1 {
-            argscope.define(
-                va_name.clone(),
-                args.only_named(va_name).unwrap_or_else(|| args.into()),
-            )?;
+            let by_name = if user { None } else { args.only_named(va_name) };
+            argscope
+                .define(va_name.clone(), by_name.unwrap_or_else(|| args.into()))?;
         } else {
             args.check_no_named()?;
         }
@@ -130,6 +157,8 @@ pub enum ArgsError {
     Missing(Name),
     /// Got unexpected named argumet
     Unexpected(Name),
+    /// An argument was passed both by position and by name.
+    Duplicate(Name),
     /// An error evaluating one of the arguments.
     Eval(Box<Error>),
 }
@@ -169,6 +198,10 @@ impl fmt::Display for ArgsError {
             Self::Unexpected(name) => {
                 write!(out, "No parameter named ${name}.")
             }
+            Self::Duplicate(name) => write!(
+                out,
+                "Argument ${name} was passed both by position and by name."
+            ),
             Self::Eval(e) => e.fmt(out),
         }
     }
